@@ -28,7 +28,7 @@ import (
 
 func init() { factGroups["Appends"] = appendsFacts }
 
-var appendsFiles = []string{"lib/core/core.go", "mal.go", "types/types.go", "lnotation/lnotation.go"}
+var appendsFiles = []string{"lib/core/core.go", "mal.go", "types/types.go", "lnotation/lnotation.go", "lisperror/lisperror.go", "lib/concurrent/concurrent.go", "lib/call/call.go"}
 
 // per function: what is assigned to each local (`x`) and to each field of a local (`x.F`)
 type apFn struct {
@@ -305,6 +305,30 @@ func appendsFacts(repo string) (string, error) {
 						apps = append(apps, fmt.Sprintf("  ⟨%s, %s, %d, %s, %s, %v⟩", leanStr(rel), leanStr(name), na,
 							leanStr(types.ExprString(n.Args[0])), leanStr(o), apFresh(o)))
 						na++
+					}
+					// builtins and library calls that WRITE INTO their first argument count as index assignments of it:
+					// delete(m, k), copy(dst, src), clear(x), sort.X(x, …), slices.Sort*(x, …), slices.Reverse(x), maps.Copy(dst, src)
+					writes := false
+					if id, ok := n.Fun.(*ast.Ident); ok && (id.Name == "delete" || id.Name == "copy" || id.Name == "clear") && len(n.Args) > 0 {
+						writes = true
+					}
+					if sel, ok := n.Fun.(*ast.SelectorExpr); ok && len(n.Args) > 0 {
+						if pk, ok := sel.X.(*ast.Ident); ok {
+							switch {
+							case pk.Name == "sort" && sel.Sel.Name != "Search" && !strings.HasPrefix(sel.Sel.Name, "Search") && !strings.HasSuffix(sel.Sel.Name, "AreSorted") && !strings.HasPrefix(sel.Sel.Name, "Is"):
+								writes = true
+							case pk.Name == "slices" && (strings.HasPrefix(sel.Sel.Name, "Sort") || sel.Sel.Name == "Reverse"):
+								writes = true
+							case pk.Name == "maps" && (sel.Sel.Name == "Copy" || sel.Sel.Name == "DeleteFunc"):
+								writes = true
+							}
+						}
+					}
+					if writes {
+						o := fn.origin(n.Args[0], map[string]bool{})
+						idxs = append(idxs, fmt.Sprintf("  ⟨%s, %s, %d, %s, %s, %v⟩", leanStr(rel), leanStr(name), ni,
+							leanStr(types.ExprString(n.Args[0])), leanStr(o), apFresh(o)))
+						ni++
 					}
 				case *ast.SliceExpr:
 					slices = append(slices, fmt.Sprintf("  ⟨%s, %s, %d, %s, %v⟩", leanStr(rel), leanStr(name), ns,
